@@ -33,6 +33,39 @@ theorem runLoopG_steps (perf : Prog → PState → Outcome PState) :
       · simp [RunResult.steps?] at h; omega
       · simp [RunResult.steps?] at h
 
+/-- **Runs compose**: a run with step budget `a + b` is the run with budget `a` continued, from the state and
+    step count it reached, with budget `b` (a run that ended early - empty exec stack, fatal error, panic - stays
+    ended).  Hence the state after `a` steps of any longer run is the final state of the run with limit `a`. -/
+theorem runLoopG_add (perf : Prog → PState → Outcome PState) (b : Nat) :
+    ∀ (a k : Nat) (s : PState),
+      runLoopG perf (a + b) k s =
+        match runLoopG perf a k s with
+        | .done s' k' => runLoopG perf b k' s'
+        | r => r := by
+  intro a
+  induction a with
+  | zero => intro k s; simp [runLoopG]
+  | succ n ih =>
+    intro k s
+    have e : n + 1 + b = (n + b) + 1 := by omega
+    rw [e]
+    rw [runLoopG, runLoopG]
+    cases hp : s.exec.pop with
+    | error e =>
+      simp only []
+      -- exec empty: the longer run ends here too
+      cases b with
+      | zero => simp [runLoopG]
+      | succ b' => rw [runLoopG]; simp [hp]
+    | ok pe =>
+      obtain ⟨p, est⟩ := pe
+      simp only []
+      cases perf p { s with exec := est } with
+      | ok s1 => exact ih (k + 1) s1
+      | recoverable s1 e1 => exact ih (k + 1) s1
+      | fatal s1 e1 => rfl
+      | panic => rfl
+
 /-- the state reached when the loop ends (normally or by a fatal error) -/
 def RunResult.state? : RunResult → Option PState
   | .done s _ => some s
